@@ -18,8 +18,8 @@ import (
 
 type jdoc = map[string]interface{}
 
-func dNull() jdoc           { return jdoc{"t": "null"} }
-func dStr(s string) jdoc    { return jdoc{"t": "str", "v": s} }
+func dNull() jdoc        { return jdoc{"t": "null"} }
+func dStr(s string) jdoc { return jdoc{"t": "str", "v": s} }
 func dArr(v []interface{}) jdoc {
 	if v == nil {
 		v = []interface{}{}
